@@ -46,6 +46,10 @@ def set_of_list(xs):
     return set(xs)
 
 
+def has(xs, x):
+    return x in xs
+
+
 def names_of(xs):
     return {x + 1 for x in xs}
 
